@@ -151,6 +151,9 @@ def check(case, ignore_regions=False) -> Outcome:
         return fail("verdict-without-domains-differs-from-ID", trso_answered=est is not None, reference_identifiable=ref, estimand=None if est is None else est.to_y0())
     if est is None:
         labels.add("none")
+        if ref:
+            # no estimand means no surrogate experiment was usable, and then TRSO has to answer exactly when ID does
+            return fail("no-estimand-although-identifiable-from-the-target-alone", reference_identifiable=True)
         out.labels = sorted(labels)
         return out
     if not ignore_regions and REGION_F17 in open_regions(ID) and cond_activation:
